@@ -142,6 +142,33 @@ def generate(repo):
             for t, bs in blanket:
                 if t not in cont[c] and all(b in cont[c] for b in bs):
                     cont[c].add(t); changed = True
+    # where each transition goes: (trait, source pm, source lm, target pm, target lm); 9 = a generic parameter, and a
+    # generic target parameter must be the SAME identifier as the source's in that position ("kept"), else 8 (unrelated)
+    targets = []
+    for m in re.finditer(r"(?m)^\s*impl\b", src):
+        k = src.index("{", m.end())
+        header = " ".join(src[m.end():k].split())
+        mt = re.search(r"\b(Lock|Unlock|ProtectReadOnly|ProtectReadWrite|ProtectNoAccess)<[^>]*>\s+for\s+Protected<(.*)>\s*(?:where.*)?$", header)
+        if not mt: continue
+        sargs = split_top(mt.group(2))
+        d, e = 0, k
+        while True:
+            if src[e] == "{": d += 1
+            elif src[e] == "}":
+                d -= 1
+                if d == 0: break
+            e += 1
+        body = " ".join(src[k:e].split())
+        mr = re.search(r"fn \w+\(\s*(?:mut\s+)?self\s*,?\s*\)\s*->\s*Result<\s*Protected<([^>]*)>", body)
+        if not mr: raise SystemExit("vgen(impl table): cannot read the result type of the transition impl `%s`" % header)
+        targs = split_top(mr.group(1))
+        if len(sargs) != 3 or len(targs) != 3: raise SystemExit("vgen(impl table): unexpected Protected<..> arity in `%s`" % header)
+        def code(x, table): return table.get(x.split("::")[-1].strip(), 9)
+        def tgt(pos, table):
+            c = code(targs[pos], table)
+            if c != 9: return c
+            return 9 if targs[pos].strip() == sargs[pos].strip() else 8
+        targets.append((tcode[mt.group(1)], code(sargs[1], PM), code(sargs[2], LMC), tgt(1, PM), tgt(2, LMC)))
     # transitions take self by value?
     trans = []
     for t in ["Lock", "Unlock", "ProtectReadOnly", "ProtectReadWrite", "ProtectNoAccess", "Lockable"]:
@@ -174,6 +201,8 @@ def generate(repo):
     out.append("Definition impl_rows : list (Z * Z * Z * Z * list Z) :=\n  [" + ";\n   ".join("(%d, %d, %d, %d, [%s])" % (r[0], r[1], r[2], r[3], "; ".join(map(str, r[4]))) for r in rows) + "].")
     out.append("Definition container_traits : list (Z * list Z) :=\n  [(1, [%s]);\n   (2, [%s])]." % ("; ".join(str(tcode[t]) for t in sorted(cont[1], key=lambda x: tcode[x])), "; ".join(str(tcode[t]) for t in sorted(cont[2], key=lambda x: tcode[x]))))
     out.append("Definition transition_by_value : list (Z * bool) := [" + "; ".join("(%d, %s)" % (a, "true" if b else "false") for a, b in trans) + "].")
+    out.append("(* (transition trait, source pm, source lm, target pm, target lm): 9 = generic / kept from the source, 8 = an unrelated generic *)")
+    out.append("Definition transition_targets : list (Z * Z * Z * Z * Z) := [" + "; ".join("(%d, %d, %d, %d, %d)" % t for t in targets) + "].")
     names = sorted({n for _, n in smeth})
     out.append("(* stream methods: (mode 0 Push / 1 Pull / 9 any, method) ; methods: " + ", ".join("%d=%s" % (k, n) for k, n in enumerate(names)) + " *)")
     out.append("Definition stream_methods : list (Z * Z) := [" + "; ".join("(%d, %d)" % (m, names.index(n)) for m, n in smeth) + "].")
